@@ -76,6 +76,116 @@ mod verif_native_cursor {
         Ok(())
     }
 
+    // one complete inner fold over the same stream, run from inside the body of an outer fold; `appends_in_first_round` values are
+    // appended by the inner body in its first round. Returns what the inner fold visited.
+    fn inner_fold(stream: &mut Stream<ValueAggregate>, next_id: &mut u32, appends_in_first_round: usize) -> Result<Vec<u32>, String> {
+        let mut cursor = RecursiveStreamCursor::new();
+        let mut seen = vec![];
+        let mut state = cursor.met_fold_start(stream);
+        let mut round = 0usize;
+        loop {
+            match state {
+                RecursiveCursorState::Exhausted => break,
+                RecursiveCursorState::Continue(iterables) => drain(iterables, &mut seen),
+            }
+            if round == 0 {
+                for _ in 0..appends_in_first_round {
+                    stream.add_value(value_at(*next_id), Generation::new()).map_err(|e| e.to_string())?;
+                    *next_id += 1;
+                }
+            }
+            round += 1;
+            if round > 10 { return Err("inner cursor does not terminate".into()); }
+            state = cursor.met_iteration_end(stream);
+        }
+        Ok(seen)
+    }
+
+    // nested folds over ONE stream (F14, F14b and their relatives): per outer round the body runs a complete inner fold
+    // (appending `inner` values in its first round) before or after appending `outer` values itself.
+    fn nested_scenario(initial: &[usize], rounds: &[(usize, usize, bool)]) -> Result<(), String> {
+        let mut stream: Stream<ValueAggregate> = Stream::new();
+        let mut next_id = 0u32;
+        for slot in initial {
+            let generation = match slot { 0 => Generation::previous(0), 1 => Generation::current(0), _ => Generation::current(1) };
+            stream.add_value(value_at(next_id), generation).map_err(|e| e.to_string())?;
+            next_id += 1;
+        }
+        let mut cursor = RecursiveStreamCursor::new();
+        let mut seen: Vec<u32> = vec![];
+        let mut state = cursor.met_fold_start(&mut stream);
+        let mut round = 0usize;
+        loop {
+            match state {
+                RecursiveCursorState::Exhausted => break,
+                RecursiveCursorState::Continue(iterables) => {
+                    if iterables.is_empty() { return Err("Continue with no iterables".into()); }
+                    drain(iterables, &mut seen);
+                }
+            }
+            if let Some(&(inner, outer, inner_first)) = rounds.get(round) {
+                let run_inner = |stream: &mut Stream<ValueAggregate>, next_id: &mut u32| -> Result<(), String> {
+                    let present = *next_id;
+                    let visited = inner_fold(stream, next_id, inner)?;
+                    let mut sorted = visited.clone();
+                    sorted.sort_unstable();
+                    let expected: Vec<u32> = (0..*next_id).collect();
+                    if sorted != expected {
+                        return Err(format!("inner fold of outer round {round} (stream had {present} values, appended {inner}) visited {visited:?}, expected each of {expected:?} once"));
+                    }
+                    Ok(())
+                };
+                if inner_first { run_inner(&mut stream, &mut next_id)?; }
+                for _ in 0..outer {
+                    stream.add_value(value_at(next_id), Generation::new()).map_err(|e| e.to_string())?;
+                    next_id += 1;
+                }
+                if !inner_first { run_inner(&mut stream, &mut next_id)?; }
+            }
+            round += 1;
+            if round > 12 { return Err("outer cursor does not terminate".into()); }
+            state = cursor.met_iteration_end(&mut stream);
+        }
+        let mut sorted = seen.clone();
+        sorted.sort_unstable();
+        let expected: Vec<u32> = (0..next_id).collect();
+        if sorted != expected {
+            return Err(format!("outer fold visited {seen:?}, expected each of {expected:?} exactly once"));
+        }
+        Ok(())
+    }
+
+    #[test]
+    fn nested_folds_visit_each_value_once() {
+        let mut cases = 0u64;
+        let deep = std::env::var("VERIF_TIER").map(|v| v == "thorough").unwrap_or(false);
+        let max_rounds = if deep { 4usize } else { 3 };
+        // a round: (values appended by the inner fold 0..=1, values appended by the outer body 0..=2, inner fold first?)
+        let mut kinds = vec![];
+        for inner in 0..=1usize { for outer in 0..=2usize { for first in [true, false] { kinds.push((inner, outer, first)); } } }
+        for n_initial in 1..=2usize {
+            for mut code in 0..3usize.pow(n_initial as u32) {
+                let mut initial = vec![];
+                for _ in 0..n_initial { initial.push(code % 3); code /= 3; }
+                for n_rounds in 1..=max_rounds {
+                    for mut rcode in 0..kinds.len().pow(n_rounds as u32) {
+                        let mut rounds = vec![];
+                        for _ in 0..n_rounds { rounds.push(kinds[rcode % kinds.len()]); rcode /= kinds.len(); }
+                        // a round only runs if the previous one appended something (otherwise the outer fold is exhausted)
+                        let mut effective = vec![];
+                        for r in &rounds { effective.push(*r); if r.0 + r.1 == 0 { break; } }
+                        if let Err(e) = nested_scenario(&initial, &effective) {
+                            println!("VERIF-JOB C13.cursor_nested FAIL initial={initial:?} rounds(inner appends, outer appends, inner first)={effective:?}: {e}");
+                            panic!("{e}");
+                        }
+                        cases += 1;
+                    }
+                }
+            }
+        }
+        println!("VERIF-JOB C13.cursor_nested CASES {cases}");
+    }
+
     #[test]
     fn fold_visits_each_value_once() {
         let mut cases = 0u64;
